@@ -82,6 +82,8 @@ for _p in ("C01", "C02", "C03", "C04", "C05", "C06", "C07"):
     PROPS[_p]["domains"] = PROPS[_p]["domains"] + [{"name": "updx", "n_quick": 6000, "n_thorough": 200000}]
 for _p in ("C04", "C05"):
     PROPS[_p]["domains"] = PROPS[_p]["domains"] + [{"name": "hlp", "n_quick": 600, "n_thorough": 15000}]
+# C05 also over real version conversion: the single-version run is the reference for every other manager's record
+PROPS["C05"]["domains"] = PROPS["C05"]["domains"] + [{"name": "mv", "n_quick": 800, "n_thorough": 20000}]
 PROPS["C02"]["lean_modules"] = ["SMD.Properties.C02", "SMD.Properties.FindingWitnesses2"]
 PROPS["C03"]["lean_modules"] = ["SMD.Properties.C03", "SMD.Properties.C02Apply"]
 PROPS["C05"]["lean_modules"] = ["SMD.Properties.C05", "SMD.Properties.C04Exact"]
